@@ -53,13 +53,32 @@ Definition in_hull (r : qrect) (px py : Z) : bool :=
 Definition filter_layer (bbox : qrect) (max_bbox : irect) : option irect :=
   fit_to_rect (to_int_rect bbox) max_bbox.
 
-(* pixmap.draw_pixmap(ibbox.x, ibbox.y, layer): only pixels inside the layer box are blended *)
+(* pixmap.draw_pixmap(ibbox.x, ibbox.y, layer) in tiny-skia 0.11.4: a non-anti-aliased fill_rect of the layer
+   rectangle with a Pad-mode pattern shader translated to (ibbox.x, ibbox.y).  The destination rectangle goes
+   through Rect::round, whose saturate_round(x) = (x.floor() + 0.5) as i32 truncates toward zero: a NEGATIVE
+   integer origin x becomes x + 1 (validated by the `draw` correspondence table).  The width is unchanged, so
+   the rectangle reaches one pixel beyond the layer, where the pattern repeats the layer's last row / column. *)
+Definition ts_round (x : Z) : Z := if x <? 0 then x + 1 else x.
+Definition clampZ (lo hi v : Z) : Z := Z.max lo (Z.min hi v).
+Definition drawn_rect (ib : irect) : irect :=
+  {| ix := ts_round (ix ib); iy := ts_round (iy ib); iw := iw ib; ih := ih ib |}.
 Definition draw_layer {A : Type} (blend : A -> A -> A) (canvas : Z -> Z -> A) (ib : irect)
            (layer : Z -> Z -> A) : Z -> Z -> A :=
-  fun x y => if in_irect ib x y then blend (layer (x - ix ib) (y - iy ib)) (canvas x y) else canvas x y.
+  fun x y => if in_irect (drawn_rect ib) x y
+             then blend (layer (clampZ 0 (iw ib - 1) (x - ix ib)) (clampZ 0 (ih ib - 1) (y - iy ib))) (canvas x y)
+             else canvas x y.
+(* KNOWN class: the layer starts left of / above the canvas origin *)
+Definition layer_origin_negative (ib : irect) : bool := (ix ib <? 0) || (iy ib <? 0).
+(* the pixel hull grown by one pixel on the right and at the bottom *)
+Definition in_hull_plus1 (r : qrect) (px py : Z) : bool :=
+  (hull_l r <=? px) && (px <? hull_r r + 1) && (hull_t r <=? py) && (py <? hull_b r + 1).
+(* alpha bitmap of an opaque w x h pixmap drawn at (x, y) onto a transparent W x H canvas (correspondence) *)
+Fixpoint zrangeZ (n : nat) (s : Z) : list Z := match n with O => [] | S k => s :: zrangeZ k (s + 1) end.
+Definition draw_bitmap (W H : Z) (ib : irect) : list Z :=
+  flat_map (fun y => map (fun x => if in_irect (drawn_rect ib) x y then 1 else 0) (zrangeZ (Z.to_nat W) 0))
+           (zrangeZ (Z.to_nat H) 0).
 
 (* list of all pixel coordinates of a w x h pixmap, row-major (for correspondence bitmaps) *)
-Fixpoint zrangeZ (n : nat) (s : Z) : list Z := match n with O => [] | S k => s :: zrangeZ k (s + 1) end.
 Definition crop_bitmap (w h : Z) (s : irect) : list Z :=
   flat_map (fun y => map (fun x => if crop_keeps w h s x y then 1 else 0) (zrangeZ (Z.to_nat w) 0))
            (zrangeZ (Z.to_nat h) 0).
